@@ -14,6 +14,7 @@ import (
 func init() {
 	register("C06_RecoverRevokes", C06_RecoverRevokes)
 	register("C06_UpdatePassword", C06_UpdatePassword)
+	register("C06_HasherExact", C06_HasherExact)
 }
 
 // C06_RecoverRevokes: a successful POST /recover/end (remember loaded or not, login after
@@ -71,4 +72,45 @@ func C06_UpdatePassword() {
 	verif.Assert(!f.w.Store.HasSerial(a.rmSerial[0]), "remember tokens of the account are revoked")
 	verif.Assert(f.w.Store.HasSerial(b.rmSerial[0]), "other accounts' remember tokens are untouched")
 	verif.Assert(f.w.Store.Get(b.pid).Same(b.u), "no other account is affected")
+}
+
+// C06_HasherExact: the shipped hasher (authboss.NewBCryptHasher, bcrypt modelled as an ideal
+// salted hash over the 72 bytes its key schedule reads): whenever it produces a hash for a
+// password, that hash verifies exactly that password - in particular a previous password that
+// differs from the new one never verifies against the new hash. Password lengths 0..3 and 71..74:
+// bcrypt's 72-byte boundary is inside the bound.
+func C06_HasherExact() {
+	verif.ReplayInInterpreter() // the bcrypt model is the executor's (natively: real bcrypt, cost 4, same contract)
+	h := authboss.NewBCryptHasher(4)
+	// lengths 0..3 and 71..74 (around bcrypt's 72-byte boundary), contents arbitrary
+	pick := func(label string) string {
+		switch verif.Choice(label+"_len", 5) {
+		case 0:
+			return verif.String(label, 3)
+		case 1:
+			return verif.StringN(label+"71", 71)
+		case 2:
+			return verif.StringN(label+"72", 72)
+		case 3:
+			return verif.StringN(label+"73", 73)
+		}
+		return verif.StringN(label+"74", 74)
+	}
+	pw := pick("pw")
+	other := pick("other")
+	hash, err := h.GenerateHash(pw)
+	verif.Witness(err == nil, "hash-generated")
+	verif.Witness(err != nil, "password-refused")
+	if err != nil {
+		verif.Assert(hash == "", "a refused password produces no hash")
+		return
+	}
+	verif.Assert(h.CompareHashAndPassword(hash, pw) == nil, "the hash verifies the password it was generated from")
+	// "other": any different password the hasher accepts as a password (a previous or a later
+	// password of the account). Longer inputs share bcrypt's 72-byte key with their prefix and
+	// are no passwords of any account.
+	if _, err2 := h.GenerateHash(other); err2 == nil && other != pw {
+		verif.Assert(h.CompareHashAndPassword(hash, other) != nil, "the hash verifies no other password")
+	}
+	verif.Assert(!verif.Exposes(hash, pw), "the hash does not contain the password")
 }
